@@ -568,6 +568,15 @@ def check_serbuf(res, facts, tier):
             v = int(v)
         return BI.BV([0] * 64, v) if isinstance(v, int) else v
 
+    def helper(nm, argv, t, N, model):
+        """a private helper of SerBuffer called from the body (e.g. the split of the tail length): interpreted in place"""
+        for key_ in (t["f"].get("res"), t["f"].get("path")):
+            callee = facts.get(key_, "ws") if key_ else None
+            if callee is not None and callee.kind != "Closure" and callee.crate == "ark_ff" and "const_helpers" in callee.id and callee.d["argc"] == len(argv):
+                v2, _ = BI.run(callee, {i + 1: x for i, x in enumerate(argv)}, params={"N": N}, call_model=model, closure_of=closure_of, max_steps=4000)
+                return v2.get(0)
+        return NotImplemented
+
     ns = (1, 2, 3, 4) if tier == "thorough" else (1, 2, 3)
     verdict = {"W": None, "R": None, "I": None}
     cases = {"W": 0, "R": 0, "I": 0}
@@ -604,8 +613,8 @@ def check_serbuf(res, facts, tier):
                     written.extend(list(src.items))
                     return BI.Opt()                 # io::Result Ok(()) / ControlFlow::Continue: discriminant 0
                 if nm == "branch":
-                    return BI.Opt()
-                return NotImplemented
+                    return argv[0] if isinstance(argv[0], BI.Opt) else BI.Opt()
+                return helper(nm, argv, t, N, wmodel)
             try:
                 BI.run(fns["copy_from_u64_slice"], {1: BI.Ref(holder, "b"), 2: BI.Ref(limbs)}, params={"N": N}, closure_of=closure_of, max_steps=5000)
                 holder["b"].fields[1] = BI.BV([1 << (64 * N + j) for j in range(8)] + [0] * 56)     # the extra byte: symbolic
@@ -644,8 +653,8 @@ def check_serbuf(res, facts, tier):
                         consumed[0] += 1
                     return BI.Opt()
                 if nm == "branch":
-                    return BI.Opt()
-                return NotImplemented
+                    return argv[0] if isinstance(argv[0], BI.Opt) else BI.Opt()
+                return helper(nm, argv, t, N, rmodel)
             try:
                 BI.run(fns["read_exact_up_to"], {1: BI.Ref(holder, "b"), 2: BI.Tok("reader"), 3: nb}, params={"N": N}, call_model=rmodel, closure_of=closure_of, max_steps=8000)
                 last = byte_of(holder["b"].fields[1])
